@@ -62,7 +62,7 @@ def shards(tier, seed):
                                                                    [4, 5, 7, 8, 9, 15, 16, 17, 31, 32, 33, 34, 36, 63, 64, 65])]
     for p in range(8):
         out.append({'fn': 'shard_history', 'args': {'part': p, 'parts': 8, 'depth': 3 if tier == 'quick' else 4}})
-    for form in ('slice', 'concat', 'bytearray-temp', 'bytearray-inplace'):
+    for form in ('slice', 'concat', 'bytearray-temp', 'bytearray-inplace', 'memoryview-window', 'memoryview-whole', 'memoryview-of-bytearray-window'):
         out.append({'fn': 'shard_temporaries', 'args': {'form': form}})
     for p in range(16):
         out.append({'fn': 'shard_lengths', 'args': {'part': p, 'parts': 16}, 'prio': 8})
@@ -226,6 +226,13 @@ def shard_temporaries(rec, form):
                 elif form == 'bytearray-inplace':
                     shared[:] = m
                     got = f(shared)
+                elif form == 'memoryview-window':
+                    # the message as a window of a larger buffer (a packet without its trailer, a field inside a datagram)
+                    got = f(memoryview(b'\x11\x22\x33' + m + b'\xee\xdd')[3:3 + L])
+                elif form == 'memoryview-whole':
+                    got = f(memoryview(m))
+                elif form == 'memoryview-of-bytearray-window':
+                    got = f(memoryview(bytearray(b'\x00' + m + b'\xff'))[1:1 + L])
                 else:
                     raise ValueError(form)
                 n += 1
